@@ -195,6 +195,13 @@ func Explore(body func(*X), o Opts) *Section {
 		register(sec)
 		return sec
 	}
+	if f := os.Getenv("VERIF_SECTIONS"); f != "" && os.Getenv("VERIF_CHILD") == "" && !strings.Contains(o.Name, f) {
+		// development aid (mutant demonstrations): run only the sections whose name contains the given substring;
+		// never set by a registered command
+		sec.Skipped = true
+		register(sec)
+		return sec
+	}
 	start := time.Now()
 	if child := os.Getenv("VERIF_CHILD"); child != "" {
 		if child != o.Name {
